@@ -9,7 +9,7 @@ CHECKS = {
    text="Runs the real compiler and generated Python encoders on thousands of generated schemas x boundary values; an independent bit-list reference decides the bytes, a trace monitor on bp.py checks every bit-copy step (exactly-once, conservation, layout order, bounds), icontract postconditions watch the helpers and the compiler's size arithmetic. Held on the executions listed in the evidence, nothing more.",
    note="Trusts vlib/ref.py as the specification and the generator's notion of validity; bounded by generator reach.", ref="2/C01"),
  "C02": dict(technique="reference-model + round-trip monitor with decode-trace layout check",
-   text="Every generated message value is encoded, decoded into a fresh object (own bytes and reference bytes), compared leaf by leaf and re-encoded; the decode trace must follow the reference layout; grids cover enum member sets x bit offsets, all signed widths, extensible-array capacity/element combinations.",
+   text="Every generated message value is encoded, decoded into a fresh object (own bytes and reference bytes), compared leaf by leaf and re-encoded, also after the process decoded foreign buffers (other prefixes, zeros, ones); the decode trace must follow the reference layout; grids cover enum member sets x bit offsets, all signed widths, extensible-array capacity/element combinations.",
    note="Trusts vlib/ref.py; enum leaves are declared members. One recorded finding (py-enum-default-or).", ref="2/C02"),
  "C03": dict(technique="differential execution of generated C (gcc/clang, -O0..-O3, 1 TU/sep) vs reference and Python, ASan/UBSan + guard pages",
    text="Generated C plus the C runtime from the working tree are built in several configurations and executed; Encode bytes are compared with the reference and with the Python encoder, Decode of reference bytes with the value; sanitizers and exact-fit guard pages watch every call.",
@@ -21,7 +21,7 @@ CHECKS = {
    text="Exact-fit wire buffers and structs (end- and start-aligned to PROT_NONE pages, canaries, ASan) during every Encode/Decode in standard and -O mode; every integer leaf overdriven with out-of-range storage (C) / ints (Python) and the wire compared with the reduced value's wire; byte-length constants of .h/.go/.py compared with ceil(N/8).",
    note="Guard pages see only the outer objects; x86-64.", ref="2/C07"),
  "C16": dict(technique="reference-model monitor on parsed JSON (Python to_json/to_dict, C Json in guard/ASan builds)",
-   text="JSON text of Python and of the generated C formatter is parsed (key order kept, true/false distinguished from 1/0) and compared with the reference JSON value for generated schemas x values; the C buffer is exact-fit with guards.",
+   text="JSON text of Python and of the generated C formatter is parsed (key order kept, true/false distinguished from 1/0) and compared with the reference JSON value for generated schemas x values; the C buffer is exact-fit with guards and dirty before the call (the text must be terminated where the returned length says).",
    note="Trusts ref.json_value; x86-64 printf width classes only.", ref="2/C16"),
 }
 
@@ -29,12 +29,12 @@ CHECKS.update({
  "C05": dict(technique="reference-model monitor over schema-evolution chains (older generated decoders on newer buffers; Python trace monitor, C guard pages + ASan)",
    text="Chains of 2-3 schema versions built from the two permitted extension steps at any depth; values of the newest version encoded by the reference and the newest generated encoders are decoded by every older version's generated Python module and (sample) C driver on exact-fit buffers; oracle = projection of the value onto the older schema.",
    note="Trusts ref.project/encode; Go runtime cannot be executed here (same formula by reading only).", ref="2/C05"),
- "C06": dict(technique="big-endian emulation (BP_BIG_ENDIAN runtime on big-endian-laid storage) with positive control + valgrind-lackey access-width traces + -O big-endian branch differential",
-   text="No big-endian CPU exists here: the -DBP_BIG_ENDIAN runtime runs on storage the driver lays out big-endian over the whole width x offset grid and traditional schemas; lackey traces show wire accesses are single bytes and -O big-endian struct accesses are whole fields (little-endian builds are the failing control); the -O big-endian branch is compared with the little-endian one and the reference.",
-   note="x86-64 only; sign extension of odd widths and extensible prefixes are not judged under the emulation; access widths observed at -O0.", ref="2/C06"),
+ "C06": dict(technique="emulated big-endian host (clang -O0 IR with every 16/32/64-bit load/store/initializer byte-swapped, big-endian detection macros on) running the real runtime, generated code and -O branches against the reference, with failing little-endian controls + storage-layout emulation + valgrind-lackey access-width traces + -O big-endian branch differential",
+   text="No big-endian CPU exists here. (0) An emulated big-endian host: the C sources are compiled to unoptimised LLVM IR, every multi-byte integer memory access and constant initializer is byte-swapped, and the program (runtime + generated code + driver, selected by the code's own __BYTE_ORDER__ test) runs natively on big-endian memory images - probe grid and generated schemas of every kind, standard mode and -O both/big, sign extension and prefixes judged, little-endian code on the same memory as failing control. (1-3) the -DBP_BIG_ENDIAN runtime runs on storage the driver lays out big-endian over the whole width x offset grid and traditional schemas; lackey traces show wire accesses are single bytes and -O big-endian struct accesses are whole fields (little-endian builds are the failing control); the -O big-endian branch is compared with the little-endian one and the reference.",
+   note="x86-64 only: the emulated host models memory byte order exactly and nothing else of a big-endian CPU (alignment, ABI, back end); constructs the IR rewriter does not understand make a build inconclusive; access widths observed at -O0.", ref="2/C06"),
  "C14": dict(technique="enumeration of the finite probe space through Python runtime (trace monitor), C runtime (LE/BE, -O0/-O2/-O3, ASan, guard pages), -O code; BpCopyBufferBits vs bit-list model",
-   text="The finite space {bool, byte, uint1..64, int1..64} x offsets 0..7 x {scalar, array element incl. batch path, alias, alias of array} x basis values is run through every executable runtime; the thorough tier enumerates it completely (cells_observed == cells_in_space is reported), quick uses a reduced basis.",
-   note="Go -O statements are evaluated, not run; BE decode of signed odd widths not judged (emulation limit).", ref="2/C14"),
+   text="The finite space {bool, byte, uint1..64, int1..64} x offsets 0..7 x {scalar, array element incl. batch path, alias, alias of array, array of alias, 2-D rows} x basis values is run through every executable runtime; the thorough tier enumerates it completely (cells_observed == cells_in_space is reported), quick uses a reduced basis.",
+   note="Go -O statements are evaluated, not run; big-endian decode of signed odd widths is judged on the emulated big-endian host (emu-BE-*) only, not under the storage-layout emulation.", ref="2/C14"),
 })
 
 CHECKS.update({
@@ -51,7 +51,7 @@ CHECKS.update({
    text="Expression trees with minimal parentheses (precedence/associativity decide), hex/decimal literals, references across imports, all boolean spellings, strings with every escape and non-ASCII; parsed values, capacities and option values compared with an own evaluator; emitted literals read back in all three languages.",
    note="/ judged only for non-negative operands; C built with -std=c99 (trigraphs on); two recorded findings (Go typed int / C #define beyond 64 bits); Go strings decoded by my implementation of Go's lexical rules.", ref="2/C13"),
  "C18": dict(technique="differential monitor over repeated/interleaved compilations + cache-coherence monitor on every memoised AST method",
-   text="sha256 of every generated file across fresh processes (hash seeds 0/1/2/random), paths, cwd (also one that holds different files under every relative import path - decoys), output directories, -q, in-process repeats, shared parse, interleaving with another schema; every memoised AST method is recomputed on each call and compared.",
+   text="sha256 of every generated file across fresh processes (hash seeds 0/1/2/random), paths, cwd (also one that holds different files under every relative import path - decoys), output directories, -q, in-process repeats, shared parse, interleaving with another schema, compilation right after an earlier compilation chosen to leave state behind (trailing comments, renaming options, compilations failing half way); every memoised AST method is recomputed on each call and compared.",
    note="Only generated files are compared.", ref="2/C18"),
 })
 
@@ -66,7 +66,7 @@ CHECKS.update({
    text="The exact sets of declared struct/typedef/function/macro names, exported symbols, Go declarations and Python public names are compared with a naming model written from the docs; with c.name_prefix the un-prefixed twin must give identical Go/Python output, struct members, layout and encoded bytes.",
    note="Names restricted to plain style-guide words; nested Go enum/alias names compared normalised.", ref="2/C15"),
  "C17": dict(technique="differential monitor over CLI invocations (-O/-F/--endian) with textual function extraction",
-   text="Real CLI invocations are compared with each other: refusals (extensible marker anywhere incl. imports, py -O, -F without -O) must be diagnostics with non-zero exit and no file; -O -F must define exactly the named messages' functions, textually identical to the unfiltered output, with everything else unchanged; --endian may change only bodies and the detection preamble.",
+   text="Real CLI invocations are compared with each other: refusals (extensible marker anywhere incl. imports, py -O, -F without -O) must be diagnostics with non-zero exit and no file; -O -F must define exactly the named messages' functions, textually identical to the unfiltered output (random subsets and, for container/contained message pairs, each one alone and both), with everything else unchanged; --endian may change only bodies and the detection preamble.",
    note="Functions are delimited by the generator's own layout.", ref="2/C17"),
  "C19": dict(technique="structural monitor: parsed Go output vs schema model and vs the Python module's processor tree; Go helper bodies evaluated with Go integer semantics vs executed Python helpers",
    text="Per message: struct fields/types/tags, size constant and Size(), the resolved BpProcessor() tree (vs model and vs the tree the imported Python module builds) and the four accessor switch tables; the five pure Go runtime helpers are evaluated over their whole reachable domain against the executed Python helpers.",
